@@ -14,6 +14,19 @@ ADV = c06.ADV
 GATTR = c06.GATTR
 
 
+PARAMS = {25: 0, 28: 1, 29: 3, 30: 1, 31: 0, 32: 0, 35: 1, 36: 1, 37: 1, 38: 1, 39: 2, 40: 2, 41: 2, 42: 3, 46: 3, 48: 0, 49: 0, 50: 0, 51: 2, 1: 1, 6: 0, 12: 0}
+
+
+def opcodes(code):
+    """opcode list of an action (parameter bytes skipped)"""
+    out, i = [], 0
+    while i < len(code):
+        op = code[i]
+        out.append(op)
+        i += 1 + (code[i + 1] + 1 if op == 33 and i + 1 < len(code) else PARAMS.get(op, 0))
+    return out
+
+
 def passloop(ck):
     for cfg in ("PassLoop_a.cfg", "PassLoop_b.cfg", "PassLoop_c.cfg"):
         r = vlib.tlc("PassLoopMC.tla", cfg, timeout=3000, coverage=False, heap="16g")
@@ -75,7 +88,7 @@ def wild_cases(ck, tier, seed, tmp):
         except Exception as ex:
             raise vlib.Broken("fontgen failed on a wild program: %r" % ex)
         cases.append({"id": "w%d" % k, "font_hex": fb.hex(), "text": text[:8], "rtl": rtl, "dirs": list(range(8)) if k % 3 == 0 else [rtl, rtl ^ 1],
-                      "must_load": False, "wild": w})
+                      "must_load": False, "wild": w, "opts": k % 8, "pos_assoc": (w["kind"] == "pos" and (33 in opcodes(w["code"]) or 30 in opcodes(w["code"])))})
     # state tables with cycles (loadable, never produced by a compiler): runs longer than the 64-entry slot map
     for k in range(12 if not (tier == "quick") else 6):
         c = rng.randrange(len(CLS))
@@ -109,11 +122,19 @@ def run_engine(ck, tier, seed, pids, with_passloop=False):
         for c in cases:
             fo.write(json.dumps(c, separators=(",", ":")) + "\n")
     ck.sample({"module": "CodeLoad", "rule": cases[0]["wild"], "text": cases[0]["text"]})
+    flags = {c["id"]: c for c in cases}
+
+    def identity_of(f):
+        c = f.get("case") or {}
+        cid = c.get("id") if isinstance(c, dict) else None
+        if cid in flags and flags[cid].get("pos_assoc") and f.get("fail") == "C05" and "is in no slot's" in f.get("why", ""):
+            return {"opcode": "ASSOC or PUT_COPY", "pass": "positioning"}
+        return None
     for cfg in (("san",) if q else ("san", "sand")):
         ex = vlib.build_harness(cfg)
-        h = vlib.run_harness(ex, ["gdl", cf, "nocompare"], timeout=6000)
+        h = vlib.run_harness(ex, ["gdl", cf, "nocompare"], timeout=6000, env={"GRV_MAXFAIL": "5000"})
         for p in pids:
-            vlib.absorb(ck, h, pid=p)
+            vlib.absorb(ck, h, pid=p, identity_of=identity_of)
         if h.fault:
             return
         if h.summary:
